@@ -434,6 +434,59 @@ func fltLeaves() []*V {
 	}
 }
 
+// soloFloats: the boundary structure of the three IEEE widths a wire format can use -
+// for half, single and double precision: every subnormal with one mantissa bit set,
+// the largest subnormal, 3 units in the last place, the smallest normal, the largest
+// finite value and one negative subnormal. They appear as 1 and 2 node values only
+// (alone and as the single element of an array / map).
+func soloFloats() []*V {
+	var out []*V
+	seen := map[uint64]bool{}
+	for _, l := range fltLeaves() {
+		seen[math.Float64bits(l.Float())] = true
+	}
+	add := func(f float64) {
+		b := math.Float64bits(f)
+		if !seen[b] {
+			seen[b] = true
+			out = append(out, vFlt(f))
+		}
+	}
+	for _, p := range []struct{ mant, emin, emax int }{{10, -14, 15}, {23, -126, 127}, {52, -1022, 1023}} {
+		lsb := p.emin - p.mant // exponent of the smallest subnormal
+		for k := 0; k < p.mant; k++ {
+			if p.mant > 23 && k > 3 && k < p.mant-2 {
+				continue // double: the lowest and highest bits only
+			}
+			add(math.Ldexp(1, lsb+k))
+		}
+		add(math.Ldexp(3, lsb))
+		add(math.Ldexp(float64(uint64(1)<<uint(p.mant))-1, lsb)) // largest subnormal
+		add(math.Ldexp(1, p.emin))                               // smallest normal
+		add(math.Ldexp(2-math.Ldexp(1, -p.mant), p.emax))        // largest finite
+		add(-math.Ldexp(5, lsb))
+	}
+	return out
+}
+
+var soloFloatBits = func() map[string]bool {
+	m := map[string]bool{}
+	for _, v := range soloFloats() {
+		m[v.F] = true
+	}
+	return m
+}()
+
+func hasSoloFloat(v *V) bool {
+	solo := false
+	v.walk(func(n *V) {
+		if n.T == "flt" && soloFloatBits[n.F] {
+			solo = true
+		}
+	})
+	return solo
+}
+
 var strLens = []int{0, 1, 31, 32, 255, 256, 65535, 65536}
 
 // allLeaves is the superset; every format filters it by what it can represent.
@@ -441,6 +494,7 @@ func allLeaves() []*V {
 	out := []*V{vNull(), vBool(false), vBool(true)}
 	out = append(out, intLeaves()...)
 	out = append(out, fltLeaves()...)
+	out = append(out, soloFloats()...)
 	for _, n := range strLens {
 		out = append(out, vStr(n))
 	}
